@@ -7,7 +7,7 @@ SF = 'optiland/surfaces/surface_factory.py'
 OP = 'optiland/optic.py'
 
 
-def arbitrary_lens(c, n, stop=None, plane=(), finite_object=True, tilts=False, prefix='', special=None, mirrors=()):
+def arbitrary_lens(c, n, stop=None, plane=(), finite_object=True, tilts=False, prefix='', special=None, mirrors=(), mat_factory=None):
     """Optic with n surfaces whose vertices, radii, conics, indices are free symbols, satisfying
     WF: surface 0 is the ObjectSurface, z[1] = 0, material_pre[k] is material_post[k-1],
     at most one stop.  Built with the constructors directly, *not* through add_surface, so that it
@@ -32,7 +32,7 @@ def arbitrary_lens(c, n, stop=None, plane=(), finite_object=True, tilts=False, p
             mat = view['mat'][j - 1]
         else:
             nj = c.real(prefix + 'n%d' % j, 1.0, 2.5, positive=True)
-            mat = mats.IdealMaterial(n=nj, k=0.0)
+            mat = mats.IdealMaterial(n=nj, k=0.0) if mat_factory is None else mat_factory(c, j, nj)
         kw = {}
         if tilts and j >= 1:
             kw = dict(x=c.real(prefix + 'dx%d' % j, -1, 1), y=c.real(prefix + 'dy%d' % j, -1, 1),
